@@ -10,6 +10,7 @@
 From Coq Require Import List Arith ZArith Bool Lia.
 From LMBase Require Import Res ListX.
 From LMDense Require Import DenseModel DenseProofs.
+From LMPyIdx Require Import PyIdxAlloc PyIdxReuse.
 From LMPyIdx Require Import PyIdxModel PyIdxSpec GenSlots PyIdxProofs.
 Import ListNotations.
 
@@ -242,6 +243,110 @@ Proof. exact view_valid_within_capacity. Qed.
 Theorem C18_stale_view_refuted :
   exists R M, view_dangling true R [] [M] = true /\ view_dangling false R [] [M] = true.
 Proof. exists 2, 120. vm_compute. split; reflexivity. Qed.
+
+(* Content of a view that is STILL EXPORTED while the sequence is reused (review finding C18-2).
+   For any history [before] at whose end the view is exported and any later history [after]:
+   the descriptor handed out at export time is the descriptor of the reconfigured object (shape
+   and strides are cached at construction: this holds for EVERY history, with or without a
+   reallocation); and when the motifs of [after] need no more rows than the capacity stripe()
+   reserved, the pointer still designates the live buffer (view_dangling = false) and the OLD
+   descriptor, read against ANY storage of the reconfigured object (look-ahead rows added,
+   padding arbitrary), yields exactly the logical symbols: element [c][r] = symbol c*R+r.
+   (Same allocation id = the bytes the exported pointer designates are the current buffer of
+   the Vec, rows at the same offsets r*S: Vec::resize_with within capacity works in place.) *)
+Theorem C18_stale_view_reads_logical_within_capacity :
+  forall (T : Type) (dflt : T) C S R L (pos : list T) (avx2 : bool) (before after : list nat),
+    1 <= C -> C <= S ->
+    (forall M, In M after -> R + (M - 1) <= va_cap (stripe_alloc avx2 R)) ->
+    view_dangling avx2 R before after = false /\
+    exists s1 s2,
+      configure_all dflt C before (striped_new C S (striped_table dflt C R pos) L) = Ok s1 /\
+      configure_all dflt C after s1 = Ok s2 /\
+      configure_all dflt C (before ++ after) (striped_new C S (striped_table dflt C R pos) L) = Ok s2 /\
+      striped_getbuffer s1 = striped_getbuffer s2 /\
+      forall (st : @storage T), s_wf C S st -> abs st = ss_tab s2 ->
+      forall c r, c < C -> r < R ->
+        mv_get (ravel st) 1 (striped_getbuffer s1) [Z.of_nat c; Z.of_nat r] = Ok (nth (c * R + r) pos dflt).
+Proof.
+  intros T dflt C S R L pos avx2 before after HC HCS Hcap.
+  split; [exact (view_valid_within_capacity avx2 R before after Hcap)|].
+  exact (stale_view_reads_logical dflt C S HC R L pos before after HCS).
+Qed.
+
+(* The descriptor never changes, whatever the history (so a stale view that dangles - F24,
+   C18_stale_view_refuted - still CLAIMS the same shape and strides over freed memory). *)
+Theorem C18_descriptor_is_history_independent :
+  forall (T : Type) (dflt : T) C (Ms : list nat) (s s' : @py_striped T),
+    configure_all dflt C Ms s = Ok s' -> striped_getbuffer s' = striped_getbuffer s.
+Proof. intros T dflt C Ms s s'. exact (configure_all_desc dflt C Ms s s'). Qed.
+
+(* The verdict on a cls=alloc observation (buffer address before / after every calculate() while a
+   view stays exported) is the extracted check_alloc: it accepts exactly the observations in which
+   the buffer of a non-empty sequence never moves; the model predicts no move at any step of a
+   history that stays within the capacity reserved by stripe(), and a move beyond it (F24:
+   C18_stale_view_refuted), which check_alloc rejects. *)
+Theorem C18_check_alloc_sound_complete :
+  forall R moves, check_alloc R moves = true <-> alloc_ok R moves.
+Proof. exact check_alloc_iff. Qed.
+
+Theorem C18_alloc_model_within_capacity :
+  forall avx2 R before ms,
+    (forall M, In M ms -> R + (M - 1) <= va_cap (stripe_alloc avx2 R)) ->
+    Forall (fun b => b = false) (model_moves avx2 R before ms) /\
+    check_alloc R (map (fun b => Some b) (model_moves avx2 R before ms)) = true.
+Proof.
+  intros avx2 R before ms H.
+  pose proof (model_moves_within_capacity avx2 R ms before H) as F. split; [exact F|].
+  apply check_alloc_iff. right. intros k Hk.
+  rewrite nth_error_map in Hk. destruct (nth_error (model_moves avx2 R before ms) k) as [b|] eqn:E; [|discriminate].
+  rewrite Forall_forall in F. rewrite (F b (nth_error_In _ _ E)) in Hk. discriminate.
+Qed.
+
+Example C18_check_alloc_rejects_F24 :
+  model_moves true 2 [] [3; 120] = [false; true] /\
+  check_alloc 2 (map (fun b => Some b) (model_moves true 2 [] [3; 120])) = false /\
+  alloc_steps 0 (model_moves true 2 [] [3; 120]) [Some false; Some true] = ([1], []) /\
+  alloc_steps 0 (model_moves true 2 [] [3; 120]) [Some true; None] = ([], [0]).
+Proof. vm_compute. repeat split; reflexivity. Qed.
+
+(* The cells of a StripedScores view past len() (review finding C18-1).  The view has the shape
+   (C, R) of the whole striped score matrix: R*C cells in position order p = c*R + r, while
+   len() = L+1-M.  For the logical scoring function [score] of the case (score p = the score of
+   the window of M symbols at position p of the sequence continued with the wildcard symbol;
+   the score C01 defines when p + M <= L):
+   - EVERY cell [c][r] of the view holds score (c*R+r): no uninitialised or foreign memory;
+   - the cells with c*R+r < len() are the logical scores: the value obj[c*R+r] returns, window
+     inside the sequence;
+   - the cells with c*R+r >= len() are NOT logical scores: obj[c*R+r] raises IndexError, their
+     window reads at least one position >= L (wildcard continuation / look-ahead rows), and
+     there are exactly R*C - len() of them (at least M-1). *)
+Theorem C18_scores_view_cells_named :
+  forall (T : Type) (dflt : T) (score : nat -> T) C S R L M,
+    1 <= M -> M <= L -> L <= R * C -> C <= S -> (Z.of_nat (R * C) <= ssize_max)%Z ->
+    let s := scores_of dflt C S R L M (scores_pos score C R) in
+    let b := scores_getbuffer s in
+    scores_len s = Z.of_nat (L + 1 - M) /\
+    length (filter (fun p => L + 1 - M <=? p) (seq 0 (R * C))) = R * C - (L + 1 - M) /\
+    forall (st : @storage T), s_wf C S st -> abs st = sc_tab s ->
+    forall c r, c < C -> r < R ->
+      let p := c * R + r in
+      mv_get (ravel st) 4 b [Z.of_nat c; Z.of_nat r] = Ok (score p) /\
+      (p < L + 1 - M -> scores_getitem s (Z.of_nat p) = Ok (score p) /\ p + M <= L) /\
+      (L + 1 - M <= p -> scores_getitem s (Z.of_nat p) = Err EIndex /\ L < p + M).
+Proof.
+  intros T dflt score C S R L M HM HML HL HCS Hss s b.
+  destruct (scores_cells_named dflt score C S R L M HM HML HL HCS Hss) as [A B].
+  split; [exact A|]. split; [exact (scores_cells_beyond_count C R L M HM HML HL)|exact B].
+Qed.
+
+(* non-vacuity: 40 symbols in 2 rows of 32 columns, a motif of 5 rows: len() = 36, the view has
+   64 cells, 28 of them past len() *)
+Example C18_scores_cells_example :
+  let s := scores_of 0 32 32 2 40 5 (scores_pos (fun p => p) 32 2) in
+  scores_len s = 36%Z /\
+  scores_getitem s 35 = Ok 35 /\ scores_getitem s 36 = Err EIndex /\
+  length (filter (fun p => 40 + 1 - 5 <=? p) (seq 0 (2 * 32))) = 28.
+Proof. vm_compute. repeat split; reflexivity. Qed.
 
 (* ---------- the checker used on the implementation's observations ---------- *)
 
